@@ -19,7 +19,9 @@ KINDS = {
     31: 'model and code disagree on the xibc genesis validation of the export',
     32: 'model and code disagree on the aggregate genesis validation of the export',
     33: 'model and code disagree on the rvesting genesis validation of the export',
-    34: 'valid_state of the dumped state differs from the real xibc validation result (theorem export_validates_iff)',
+    34: 'valid_xibc of the dumped state differs from the real xibc validation result (theorem C13_export_validates_iff)',
+    35: 'validate_agg of the pairs of the dumped state differs from the real aggregate validation result (theorem C13_export_validates_iff)',
+    36: 'validate_rv of the dumped parameters differs from the real rvesting validation result (theorem C13_export_validates_iff)',
     41: 'model and code disagree on whether InitGenesis returns or panics',
     42: 'the model\'s import of the real export differs from the real xibc store after InitGenesis',
     43: 'the model\'s import of the real export differs from the real aggregate store after InitGenesis',
@@ -34,8 +36,6 @@ KINDS = {
     81: 'host.ClientIdentifierValidator differs from the model\'s valid_chain_name',
     82: 'common.IsHexAddress differs from the model\'s is_hex_address',
     83: 'sdk.ValidateDenom differs from the model\'s valid_denom',
-    84: 'a client / consensus state value reports (ClientType()) another client type than that of its own light client package',
-    91: 'an operation of a corpus history (the witness of a repaired defect) is no longer executed by the real code',
     84: 'a client / consensus state value reports (ClientType()) another client type than that of its own light client package',
     91: 'an operation of a corpus history (the witness of a repaired defect) is no longer executed by the real code',
     11: 'ExportGenesis panicked',
@@ -135,12 +135,13 @@ def gen_term(g):
 def tables_term(t):
     def rows(rs):
         return coq_list(['(%s, (%s, (%s, %s)))' % (cv(r['v']), CTYPE.get(r.get('c'), 'TM'), CTYPE.get(r['t'], 'TM'), coq_bool(r['ok'])) for r in rs])
-    return '{| t_cs := %s; t_cons := %s; t_rel := %s; t_tp := %s; t_sha := %s; t_addr := %s |}' % (
+    return '{| t_cs := %s; t_cons := %s; t_rel := %s; t_tp := %s; t_sha := %s; t_addr := %s; t_acc := %s |}' % (
         rows(t['cs']), rows(t['cons']),
         coq_list(['(%s, %s)' % (cv(r['v']), rel_term(r['r'])) for r in t['rel']]),
         coq_list(['(%s, %s)' % (cv(r['v']), pair_term(r['p'])) for r in t['tp']]),
         coq_list(['(%s, %s)' % (ck(a), ck(b)) for a, b in t['sha']]),
-        coq_list(['(%s, %s)' % (ck(a), ck(b)) for a, b in t['addr']]))
+        coq_list(['(%s, %s)' % (ck(a), ck(b)) for a, b in t['addr']]),
+        coq_list(['(%s, %s)' % (ck(a), coq_bool(b == '1')) for a, b in (t.get('acc') or [])]))
 
 
 def texts_term(t):
@@ -158,7 +159,7 @@ def triple(v):
 
 def case_defs(i, r):
     """Coq definitions of case i; returns (text, name of the gcase)"""
-    t = r.get('tables') or dict(cs=[], cons=[], rel=[], tp=[], sha=[], addr=[])
+    t = r.get('tables') or dict(cs=[], cons=[], rel=[], tp=[], sha=[], addr=[], acc=[])
     defs = []
     pre = r.get('pre')
     has_pre = pre is not None
@@ -239,7 +240,7 @@ def run_specs(workdir, specs, tag):
 
 def run_generated(workdir, seed, n, tag, jobs=8):
     """generate + run, sharded over `jobs` processes (each regenerates the same spec list and runs its slice)"""
-    total = n + 64  # corpus size is below 64; the harness ignores indices beyond the list
+    total = n + 128  # corpus size is below 128; the harness ignores indices beyond the list
     per = (total + jobs - 1) // jobs
 
     def one(j):
@@ -266,28 +267,58 @@ def fails(workdir, spec, want_kinds, klass):
     return any(k in want_kinds for _, k in got)
 
 
+XIBC_LISTS = ('clients', 'consensus', 'metadata', 'relayers', 'acks', 'commitments', 'receipts', 'send_seqs')
+
+
+def removals(sp):
+    """every spec obtained by removing ONE element: an operation of a history; a token pair, or an element of one of the
+    lists of a generated xibc genesis (clients, consensus groups and their states, metadata groups and their entries,
+    relayers, packet states)"""
+    def clone():
+        return json.loads(json.dumps(sp))
+    if sp['kind'] == 'history':
+        for i in range(len(sp['ops']) - 1, -1, -1):
+            c = clone()
+            del c['ops'][i]
+            yield c
+        return
+    g = sp.get('gen') or {}
+    for i in range(len(g.get('pairs') or []) - 1, -1, -1):
+        c = clone()
+        del c['gen']['pairs'][i]
+        yield c
+    x = g.get('xibc')
+    if not x:
+        return
+    for key in XIBC_LISTS:
+        for i in range(len(x.get(key) or []) - 1, -1, -1):
+            c = clone()
+            del c['gen']['xibc'][key][i]
+            yield c
+    for i, grp in enumerate(x.get('consensus') or []):
+        for j in range(len(grp.get('states') or []) - 1, -1, -1):
+            if len(grp['states']) > 1:
+                c = clone()
+                del c['gen']['xibc']['consensus'][i]['states'][j]
+                yield c
+    for i, grp in enumerate(x.get('metadata') or []):
+        for j in range(len(grp.get('kvs') or []) - 1, -1, -1):
+            if len(grp['kvs']) > 1:
+                c = clone()
+                del c['gen']['xibc']['metadata'][i]['kvs'][j]
+                yield c
+
+
 def shrink(workdir, spec, want_kinds, klass):
-    """delta-debug the op list (history) or the pair list (genesis input), re-running the real code each time"""
+    """greedy one-element removal (history operations / genesis elements), re-running the real code each time"""
     best = json.loads(json.dumps(spec))
-    budget = 30
-
-    def items(sp):
-        return sp['ops'] if sp['kind'] == 'history' else sp['gen']['pairs']
-
-    def without(sp, i):
-        c = json.loads(json.dumps(sp))
-        if c['kind'] == 'history':
-            c['ops'] = c['ops'][:i] + c['ops'][i + 1:]
-        else:
-            c['gen']['pairs'] = c['gen']['pairs'][:i] + c['gen']['pairs'][i + 1:]
-        return c
+    budget = 40
     changed = True
     while changed and budget > 0:
         changed = False
-        for i in range(len(items(best)) - 1, -1, -1):
-            if len(items(best)) <= 1 or budget <= 0:
+        for cand in removals(best):
+            if budget <= 0:
                 break
-            cand = without(best, i)
             budget -= 1
             if fails(workdir, cand, want_kinds, klass):
                 best = cand
@@ -315,7 +346,15 @@ def coverage(results):
                 dist['%s_%s' % (o['k'], o.get('t'))] += 1
         if s['kind'] == 'genesis':
             v = r.get('in_validate') or {}
-            dist['genesis_input_' + ('accepted' if v.get('agg') == 0 and v.get('xibc') == 0 else 'rejected')] += 1
+            acc = 'accepted' if v.get('agg') == 0 and v.get('xibc') == 0 else 'rejected'
+            x = (s.get('gen') or {}).get('xibc')
+            if x:
+                dist['genesis_input_xibc_' + acc] += 1
+                dist['genesis_input_xibc_planted_' + (x.get('defect') or 'nothing').split(' ')[0]] += 1
+                if r.get('in_init') == 2:
+                    dist['genesis_input_xibc_accepted_but_init_panicked'] += 1
+            else:
+                dist['genesis_input_aggregate_' + acc] += 1
         exp = r.get('export')
         if exp:
             for c in exp['consensus']:
@@ -329,6 +368,17 @@ def coverage(results):
                         dist['consensus_states_height_zero'] += 1
             dist['clients'] += len(exp['clients'])
             dist['metadata_entries'] += sum(len(m['kvs']) for m in exp['metadata'])
+            for m in exp['metadata']:
+                for k, _ in m['kvs']:
+                    kb = bytes.fromhex(k)
+                    for pre, nm in ((b'iterateConsensusStates', 'tm_iteration_key'), (b'consensusStates/', 'tm_processed_time'),
+                                    (b'recentSingers', 'bsc_recent_signer'), (b'pendingValidators', 'bsc_pending_validators'),
+                                    (b'ethHeaderIndex', 'eth_header_index'), (b'ethRootMain', 'eth_root_main')):
+                        if kb.startswith(pre):
+                            dist['metadata_' + nm] += 1
+                            break
+                    else:
+                        dist['metadata_other'] += 1
             dist['relayers'] += len(exp['relayers'])
             dist['acks'] += len(exp['acks'])
             dist['commitments'] += len(exp['commitments'])
@@ -356,12 +406,14 @@ def finding_key(kinds, diag):
 
 def check(run):
     run.proof_stage()
+    if not run.quick():
+        run.coqchk_stage()
     ok, out = vlib.build_harness(['c13'])
     if not ok:
         run.violation(dict(kind='harness-build-failed', log=out[-3000:],
                            explanation='the correspondence harness no longer builds against /repo'), no_input=True)
         return run.finish()
-    n = run.budget(40, 400)
+    n = run.budget(160, 3000)
     results, log = run_generated(run.work, run.seed, n, 'out')
     if results is None:
         run.violation(dict(kind='harness-crashed', log=log[-3000:]), no_input=True)
@@ -387,11 +439,17 @@ def check(run):
         'oracles: protobuf / Any codecs of client states, consensus states, relayers and token pairs; ClientState.Validate, '
         'ConsensusState.ValidateBasic, ClientType(); sha256; common.HexToAddress — tabulated from the real functions per case',
         'projection: stored values longer than 40 bytes are compared by their SHA-256 digest (tools/py/props/c13.py: iv)',
-        'gogoproto JSON codec, module manager InitChain ordering, params subspaces (modelled as plain values)']
+        'gogoproto JSON codec, module manager InitChain ordering, params subspaces (modelled as plain values)',
+        'translators tools/gotocoq/keys (key formats) and tools/gotocoq/genesisschema (GenesisState fields, fields filled / read / '
+        'validated, client-store writes and ExportMetadata iterations of the light clients): go/ast inventories, no type checking']
     run.assumptions += [
         'codec round trip: unmarshal (marshal x) = Some x for client / consensus states, relayers and token pairs (Section hypotheses)',
         'chain names of distinct clients are distinct strings, so sort.Sort (unstable) returns the same list as the model\'s insertion sort',
-        'the model identifies nil and empty byte slices (PacketState.Data == nil is transcribed as Data = [])']
+        'the model identifies nil and empty byte slices (PacketState.Data == nil is transcribed as Data = []): genesis travels as JSON, '
+        'where both are the omitted field',
+        'the guards of step / agg_step (Model/GenesisOps.v) transcribe by hand what the callers of the store writes check; they are tied '
+        'to the code by the domain checks on every dumped store (codes 71, 72, 34-36), not by a proof about the callers',
+        'sdk.AccAddressFromBech32, ClientState.Validate, ConsensusState.ValidateBasic and ClientType() are oracles of the validation model']
 
     for r in fatal[:1]:
         run.violation(dict(kind='harness-fatal', spec=r['spec'], log=r['fatal'],
@@ -451,7 +509,7 @@ def check(run):
 
     if not run.violations and mm:
         # model and code disagree although the property's monitors are silent: look harder for a failing input
-        extra, _ = run_generated(run.work, run.seed + 7919, run.budget(80, 400), 'extra')
+        extra, _ = run_generated(run.work, run.seed + 7919, run.budget(150, 600), 'extra')
         found = False
         if extra:
             extra.sort(key=lambda r: r['spec']['id'])
